@@ -82,7 +82,7 @@ fn match_id(
                     None
                 };
                 id_from_var(ast, &ty, &None, mutable, ctx, constr, env)
-            } else if env.is_destruct_mode {
+            } else if env.is_destruct_mode && env.get_var(lit, &constr.var_mapping).is_some() {
                 Ok(env.remove_var(lit))
             } else if env.get_var(lit, &constr.var_mapping).is_some() {
                 Ok(env.clone())
